@@ -128,10 +128,14 @@ func toValRV(rv reflect.Value) map[string]any {
 		var kvs []kv
 		// entries in KEY ORDER: by kind of key, then numbers numerically and everything else by its text (the order a loop over the map
 		// visits them in, and - for one kind of key - the order fmt prints them in)
-		keys := rv.MapKeys()
-		sort.SliceStable(keys, func(i, j int) bool { return keyLess(keys[i], keys[j]) })
-		for _, k := range keys {
-			kvs = append(kvs, kv{sprintRV(k), toValRV(rv.MapIndex(k))})
+		type ent struct{ k, v reflect.Value }
+		var ents []ent
+		for it := rv.MapRange(); it.Next(); {
+			ents = append(ents, ent{it.Key(), it.Value()})
+		}
+		sort.SliceStable(ents, func(i, j int) bool { return keyLess(ents[i].k, ents[j].k) })
+		for _, e := range ents {
+			kvs = append(kvs, kv{sprintRV(e.k), toValRV(e.v)})
 		}
 		lst := []any{}
 		for _, e := range kvs {
@@ -404,7 +408,11 @@ func keyLess(a, b reflect.Value) bool {
 	case a.CanUint():
 		return a.Uint() < b.Uint()
 	case a.CanFloat():
-		return a.Float() < b.Float()
+		af, bf := a.Float(), b.Float()
+		if af != af {
+			return bf == bf
+		}
+		return af < bf
 	case a.Kind() == reflect.String:
 		return a.String() < b.String()
 	}
